@@ -5,6 +5,7 @@ import (
 	stded "crypto/ed25519"
 	"fmt"
 	"os"
+	"strings"
 	"time"
 
 	abci "github.com/tendermint/tendermint/abci/types"
@@ -542,8 +543,8 @@ func CheckLockRule(p *Persist) string {
 				continue
 			}
 			for val, who := range vals {
-				if val == locked {
-					continue
+				if locked != "" && strings.HasPrefix(val, locked) {
+					continue // the same block under whatever part-set header
 				}
 				var sum int64
 				for w := range who {
@@ -579,10 +580,10 @@ func CheckLockRule(p *Persist) string {
 		switch rec.Kind {
 		case "precommit":
 			if !rec.BlockID.IsZero() {
-				lockR[rec.H], lockB[rec.H], lockRec[rec.H] = rec.R, rec.BlockID.Key(), rec
+				lockR[rec.H], lockB[rec.H], lockRec[rec.H] = rec.R, string(rec.BlockID.Hash), rec
 			}
 		case "prevote":
-			if b, locked := lockB[rec.H]; locked && rec.R > lockR[rec.H] && rec.BlockID.Key() != b {
+			if b, locked := lockB[rec.H]; locked && rec.R > lockR[rec.H] && string(rec.BlockID.Hash) != b {
 				if !quorumForOther(rec.H, lockR[rec.H], b) {
 					return fmt.Sprintf("the validator precommitted a block [%v] and later prevoted something else [%v] without having received a two-thirds prevote quorum for anything else in a round after %d", lockRec[rec.H], rec, lockR[rec.H])
 				}
